@@ -120,6 +120,18 @@ public:
         return min_weight_;
     }
 
+    void rollback(std::size_t iteration) override
+    {
+        if ((iteration == 0) && !this->results().empty())
+        {
+            // a checkpoint that was read with results does not know the weights the run was started
+            // with, but the first result recorded them
+            first_channel_weights_ = this->results().front().channel_weights();
+        }
+
+        chkpt<multi_channel_result<T>>::rollback(iteration);
+    }
+
     void serialize(std::ostream& out) const override
     {
         chkpt<multi_channel_result<T>>::serialize(out);
